@@ -31,7 +31,7 @@ RULE = ("call kinds {read(str path), read(Path), write(path), to_csv(path), writ
         "(exhaustive per scenario, quick: first 400 lines) | each input-induced failure (no sections, header error, "
         "reshape error, strict decoding error, LiDAR signature, empty file, bad version=, bad fmt, missing STRT, ragged "
         "curves, bad csv kwargs ...). distinct = distinct (call kind, scenario, fault kind, k); non-trivial = a run in "
-        "which the fault actually fired (or the induced exception was raised) while a handle opened by lasio existed")
+        "which the fault actually fired (or the induced exception was raised) while a handle opened by lasio existed Added later: persistent (sticky) faults including flush, text no codec can encode, argument-induced failures after the open (bad handler name, unknown codec, bad policies / engine / dtypes), structural failpoint placement.")
 ASSUMPTIONS = [
     "faults are injected on read/readline/readlines/next/write/writelines/seek/tell, not on close(); a persistent fault additionally fails every later operation and flush()",
     "failpoints are placed only in callee frames (reader.*, writer.*, update_start_stop_step, LASFile.data ...), never in LASFile.read/write/to_csv, in open_with_codecs or in any function that itself calls open()/urlopen(), and never on the header line of a `with` statement or inside a `finally:` body: an exception raised between the end of a block and its __exit__/close() is not a failure lasio can be asked to survive",
